@@ -49,7 +49,8 @@ class TransferCase:
     """One world, one or more consecutive transactions, optional cancels / write rejections."""
 
     def __init__(self, cfg: Cfg, datas, faults=(), cancel=None, reject_round=None, extra_sm=0, max_rounds=150,
-                 tag="tc", per_tx_req=None):
+                 tag="tc", per_tx_req=None, fault_tx=0):
+        self.fault_tx = fault_tx           # index of the transaction that the faults / cancel / write rejection apply to
         self.cfg, self.datas, self.faults = cfg, datas, list(faults)
         self.per_tx_req = per_tx_req       # request-level (mode, closure) per transaction on the same handlers
         self.cancel, self.reject_round, self.extra_sm, self.max_rounds, self.tag = cancel, reject_round, extra_sm, max_rounds, tag
@@ -63,7 +64,7 @@ class TransferCase:
                 "sizes": [None if d is None else len(d) for d in self.datas],
                 "faults": [(f.direction, f.index, f.kind, f.arg) for f in self.faults],
                 "cancel": self.cancel, "reject_round": self.reject_round, "extra_sm": self.extra_sm,
-                "per_tx_req": self.per_tx_req}
+                "per_tx_req": self.per_tx_req, "fault_tx": self.fault_tx}
 
     def run(self, hooks=()):
         w = World(self.cfg, self.tag)
@@ -73,10 +74,10 @@ class TransferCase:
                 if self.per_tx_req is not None:
                     w.cfg.req_mode, w.cfg.req_closure = self.per_tx_req[ti]
                 ret, exc = start_transfer(w, data)
-                r = Runner(w, self.faults if ti == 0 else (), max_rounds=self.max_rounds, extra_sm=self.extra_sm)
+                r = Runner(w, self.faults if ti == self.fault_tx else (), max_rounds=self.max_rounds, extra_sm=self.extra_sm)
                 r.hooks = list(hooks)
                 self.runner = r
-                if self.cancel is not None and ti == 0:
+                if self.cancel is not None and ti == self.fault_tx:
                     who, at_round, right_id = self.cancel
                     quiet = False
                     while r.round < at_round and not r.quiescent():
@@ -94,12 +95,12 @@ class TransferCase:
                         hk(side, r)
                     r._note_done(side)
                     r._drain(side)
-                if self.reject_round is not None and ti == 0:
+                if self.reject_round is not None and ti == self.fault_tx:
                     while r.round < self.reject_round and not r.quiescent():
                         r.step_round()
                     w.dst.set_reject(True)
                 ok = r.run()
-                if self.reject_round is not None and ti == 0:
+                if self.reject_round is not None and ti == self.fault_tx:
                     w.dst.set_reject(False)
                 snap = w.dst.snapshot_file(list(self.cfg.dst_path))
                 self.results.append({"quiescent": ok, "rounds": r.round, "api_exc": list(r.api_exc),
@@ -130,7 +131,7 @@ def rand_transfer_case(rng, faults_max=3, allow_cancel=True, allow_reject=True, 
     if nt > 1 and rng.random() < 0.7:
         per_tx = [(rng.choice([None, 0, 1]), rng.choice([None, True, False])) for _ in range(nt)]
     return TransferCase(cfg, datas, rand_faults(rng, nf), cancel, reject, extra_sm=rng.choice([0, 0, 0, 1, 2]),
-                        per_tx_req=per_tx)
+                        per_tx_req=per_tx, fault_tx=rng.randrange(nt) if rng.random() < 0.5 else 0)
 
 
 # ------------------------------------------------------------------ hostile single-handler streams
